@@ -79,7 +79,7 @@ func checkC08(t *testing.T, job *Job, res *Result) {
 			scs = append(scs, c08OverlappingStops(second))
 		}
 		scs = append(scs, c08TwoStoppedServices())
-		scs = append(scs, c08HeldThenStopped(false), c08HeldThenStopped(true))
+		scs = append(scs, c08HeldThenStopped(false, false), c08HeldThenStopped(true, false), c08HeldThenStopped(false, true))
 		b := Bounds{D: 2, S: 0}
 		runS(t, job, res, "C08", withReversed(scs), b, 0)
 	}
@@ -239,8 +239,8 @@ func c08TwoStoppedServices() *Scenario {
 // c08HeldThenStopped: requests held by a pause (ordinary ones, a POST, a health-check GET) when the service is stopped:
 // every held request is answered 503 with the operator's message the moment the stop is issued and none reaches a
 // target; the health-check GET is answered 200 by the proxy; requests after the stop get the same page.
-func c08HeldThenStopped(clientsFirst bool) *Scenario {
-	sc := &Scenario{Name: fmt.Sprintf("C08-S requests held by a pause, then stop; clientsFirst=%v", clientsFirst), Horizon: 30 * time.Second}
+func c08HeldThenStopped(clientsFirst, atLimit bool) *Scenario {
+	sc := &Scenario{Name: fmt.Sprintf("C08-S requests held by a pause, then stop; clientsFirst=%v stop-at-the-hold-limit=%v", clientsFirst, atLimit), Horizon: 30 * time.Second}
 	var held []*ReqObs
 	var after *ReqObs
 	var stop *CmdObs
@@ -249,7 +249,11 @@ func c08HeldThenStopped(clientsFirst bool) *Scenario {
 		held, after, stop = nil, nil, nil
 		w.AddTarget("oa:80")
 		w.Deploy(deployArgs("s1", []string{"oa:80"}, []string{"a.example.com"}, nil))
-		w.Pause("s1", vD, vMaxPause)
+		limit := vMaxPause
+		if atLimit {
+			limit = 600 * time.Millisecond // the stop is issued at the instant the held requests' limit expires
+		}
+		w.Pause("s1", vD, limit)
 		var wg vsync.WaitGroup
 		specs := []ReqSpec{
 			{ID: "held-get", Host: "a.example.com", Path: "/"},
@@ -271,6 +275,9 @@ func c08HeldThenStopped(clientsFirst bool) *Scenario {
 		if !clientsFirst {
 			send()
 			time.Sleep(300 * time.Millisecond)
+			if atLimit {
+				time.Sleep(300 * time.Millisecond)
+			}
 		}
 		w.S.SetWindow(true)
 		if clientsFirst {
@@ -293,6 +300,9 @@ func c08HeldThenStopped(clientsFirst bool) *Scenario {
 		want := html.EscapeString(msg)
 		for _, r := range append(append([]*ReqObs{}, held...), after) {
 			b := string(r.Body)
+			if atLimit && r.ID != "after" && r.Status == 504 {
+				continue // its hold limit expired first
+			}
 			if r.Status != 503 || !(strings.Contains(b, want) || strings.Contains(b, strings.ReplaceAll(want, "&#34;", "&quot;"))) {
 				sig := "held-request-not-answered-503-with-message on-stop"
 				if r.ID == "after" {
